@@ -29,9 +29,13 @@ func run(e *harness.Env) {
 		"long: a length-40 skeleton with q/Q nesting depth 8 and a Form XObject (standard or operator-less body) invoked at depth 8, all programs within <= 2 (quick) / 3 (thorough) operator substitutions; " +
 		"form: product of <=2 (quick) / <=3 (thorough) outer cm x /Matrix (8) x direct/indirect x 9 form bodies (text, nested form, cm/TL/Tf inside the form without q, operator-less: zero bytes / white space / comment, state-only, operator-less nested form) x 5 invocation contexts (bare, q Do Q, q cm Do Q, two q levels with text between the Qs, 12 invocations in a row) x follow-up page-level text; " +
 		"gfx: every q/Q/cm program of <= 4 (quick) / 6 (thorough) operators with a stroked segment after each step through graphicsstate.NewGraphicsExtractor. " +
+		"tq: BT [pre] q <1..2 (quick) / 1..3 (thorough) positioning, showing or text-state operators> Q <each kind of next operator> Tj ET, with and without a page cm " +
+		"(q/Q inside a text object is outside ISO 32000-1 Figure 9; reference = tabula's pinned model that q saves Tm/Tlm too; the seq grammar also allows such pairs, token qintext=y); " +
+		"noop: per text-state parameter (Tf size, TL, Tc, Tw, Tz, Ts, Tr) a block 'q <change> Q' at page level and inside the text object must leave all later fragments (origin, size, width) as without the block; " +
 		"One evaluation = one program; distinct = distinct program descriptors; non-trivial = the program is sensitive to the multiplication order, or makes a q/Q/Do restore observable, or has >= 2 compared shows. " +
 		"seq cases are sharded and (when failing) recorded per group = common prefix of 3 operators: one failure record per group x signature x feature class, remaining failing programs are counted in programs_failing"
 	e.Assumptions = []string{
+		"q/Q inside a text object are not allowed by ISO 32000-1 (Figure 9) and Tm/Tlm are not graphics-state parameters there; for such programs (descriptor token qintext=y) the reference states tabula's own pinned model - q pushes the whole GraphicsState including TextMatrix/TextLineMatrix and Q pops it - not a requirement of the standard",
 		"the reference state machine in checks/c08/ref.go implements ISO 32000-1 8.3.4, 8.4.2-8.4.4, 8.10.1, 9.3, 9.4.2 correctly (own 6-number matrix product, row-vector convention)",
 		"numbers are written as short decimal literals; reference and tabula both read them with strconv, tolerance 1e-6 absolute + 1e-9 relative",
 		"programs containing ' or \" are handed to Extract() as pre-built operations (the content-stream tokenizer is property C06's subject), all others as bytes to ExtractFromBytes()",
@@ -42,7 +46,7 @@ func run(e *harness.Env) {
 	for _, sp := range []struct {
 		name string
 		f    func(*harness.Env)
-	}{{"seq", seqSpace}, {"long", longSpace}, {"form", formSpace}, {"gfx", gfxSpace}} {
+	}{{"seq", seqSpace}, {"tq", textQSpace}, {"noop", noopSpace}, {"long", longSpace}, {"form", formSpace}, {"gfx", gfxSpace}} {
 		if only == "" || strings.Contains(","+only+",", ","+sp.name+",") {
 			sp.f(e)
 		}
@@ -193,6 +197,19 @@ func judge(p *program) verdict {
 			// every compared origin equals what a machine computes that concatenates cm and Td on the wrong side
 			v.sig = "origin-as-if-postmultiplied"
 			extra = "\nall compared origins equal the model with CTM' = CTM x M and Tlm' = Tlm x T(tx,ty) (operands swapped)"
+		} else if ref.qInText {
+			alt := simulate(p, variant{keepTm: true})
+			same := true
+			for i, w := range ref.out {
+				if w.comparePos && (!near(frags[i].X, alt.out[i].x, w.tol) || !near(frags[i].Y, alt.out[i].y, w.tol)) {
+					same = false
+				}
+			}
+			if same {
+				v.sig = "tm-not-restored-by-Q-inside-text-object"
+				extra = "\nall compared origins equal the model in which a Q inside a text object keeps the current Tm/Tlm. ISO 32000-1 does not allow q/Q inside BT..ET; " +
+					"the reference here is tabula's own model (q pushes the whole GraphicsState including TextMatrix/TextLineMatrix, Q pops it)"
+			}
 		}
 		v.explain = func() (string, map[string][]byte) {
 			return fmt.Sprintf("show #%d %q (q depth %d, in form %v): want origin (%.9g, %.9g) = (0,0) x Tm x CTM, got (%.9g, %.9g)%s\nprogram: %s",
@@ -216,6 +233,168 @@ func judge(p *program) verdict {
 		}
 	}
 	return v
+}
+
+// ---- tq: q ... Q inside one text object --------------------------------------------------------------
+//
+// BT [pre] q <inner: 1..n positioning / showing / text-state operators> Q <post> Tj ET, optionally under a
+// page-level cm. Outside ISO 32000-1 Figure 9 (q/Q are not allowed in text objects); the reference is tabula's
+// pinned model, see ref.go (type saved). The seq space contains these programs too (up to its length bound);
+// this space reaches longer ones in the quick tier and makes sure every kind of operator follows the Q.
+func textQSpace(e *harness.Env) {
+	n := 2
+	if e.Thorough() {
+		n = 3
+	}
+	inner := []op{opsTm[0], opsTm[3], opsTd[0], opsTD[0], opTstar, opsTL[1], opsTf[1], opTc, opTw, opTz, opTj, opQuote, opDQuote}
+	pres := [][]op{nil, {opsTm[1]}, {opsTd[0]}, {opsTD[1]}, {opTj}, {opsTL[0], opsTd[2]}}
+	posts := []op{opTj, opTstar, opQuote, opDQuote, opsTd[0], opsTD[1], opsTm[0]}
+	pagepres := [][]op{nil, {opsCm[2]}}
+	var inners [][]op
+	var rec func(cur []op)
+	rec = func(cur []op) {
+		if len(cur) > 0 {
+			inners = append(inners, append([]op{}, cur...))
+		}
+		if len(cur) == n {
+			return
+		}
+		for i := range inner {
+			rec(append(cur, inner[i]))
+		}
+	}
+	rec(nil)
+	for _, pp := range pagepres {
+		for _, pre := range pres {
+			for _, in := range inners {
+				for pi := range posts {
+					p := &program{shareFonts: true, textQ: true}
+					p.ops = append(p.ops, opsTf[0])
+					p.ops = append(p.ops, pp...)
+					p.ops = append(p.ops, opBT)
+					p.ops = append(p.ops, pre...)
+					p.ops = append(p.ops, opq)
+					p.ops = append(p.ops, in...)
+					p.ops = append(p.ops, opQ, posts[pi], opTj, opET)
+					desc := "space=tq pagepre=" + codes(pp) + " pre=" + codes(pre) + " inner=" + codes(in) + " post=" + posts[pi].code + " tmrot=" + yn(p.hasRotatedTm()) + " qintext=y"
+					if !e.Own(desc) {
+						continue
+					}
+					e.Begin(desc)
+					v := judge(p)
+					if v.sig != "" {
+						det, files := v.explain()
+						e.Fail(desc, v.sig, det, files)
+						continue
+					}
+					e.Pass(desc, true, "tq:"+v.outcome)
+				}
+			}
+		}
+	}
+}
+
+// ---- noop: a q <text-state change> Q block changes nothing that follows -------------------------------------
+//
+// Metamorphic oracle, needs no glyph metrics: the fragments (text, origin, font size, width) produced after a
+// block "q P Q" (P sets one text-state parameter to a new value; optionally followed by a show) must be the
+// fragments of the same program without the block. This makes the restoration of Tc, Tw, Tz (visible only through
+// glyph advances), Ts, Tr, Tf size and TL by Q observable one parameter at a time. Page-level blocks are ISO-valid
+// programs; blocks inside the text object are the tabula extension (qintext=y).
+func noopSpace(e *harness.Env) {
+	str := func(o op, s string) op { o.s = s; return o }
+	params := []struct {
+		name string
+		set  op // the non-default value in force before the block
+		chg  op // the value set inside the block
+	}{
+		{"Tfs", tfOp("F1", "10"), tfOp("F1", "17")},
+		{"TL", numOp("TL", "", "14"), numOp("TL", "", "3")},
+		{"Tc", numOp("Tc", "", "0.25"), numOp("Tc", "", "4")},
+		{"Tw", numOp("Tw", "", "1"), numOp("Tw", "", "9")},
+		{"Tz", numOp("Tz", "", "120"), numOp("Tz", "", "50")},
+		{"Ts", numOp("Ts", "", "2"), numOp("Ts", "", "7")},
+		{"Tr", numOp("Tr", "", "0"), numOp("Tr", "", "3")},
+	}
+	build := func(chg *op, level, block string, tm op) *program {
+		p := &program{shareFonts: true, textQ: true}
+		for _, q := range params {
+			p.ops = append(p.ops, q.set)
+		}
+		blk := func() {
+			if chg == nil {
+				return
+			}
+			p.ops = append(p.ops, opq, *chg)
+			if block == "set+show" {
+				p.ops = append(p.ops, str(opTj, "x y"))
+			}
+			p.ops = append(p.ops, opQ)
+		}
+		if level == "page" {
+			blk()
+		}
+		p.ops = append(p.ops, opBT, tm, str(opTj, "A b"))
+		if level == "text" {
+			blk()
+		}
+		p.ops = append(p.ops, str(opTj, "C d"), opTstar, str(opTj, "E f"), str(opTj, "G h"), str(opQuote, "I j"), str(opTj, "K l"), opET)
+		return p
+	}
+	for pi := range params {
+		for _, level := range []string{"page", "text"} {
+			for _, block := range []string{"set", "set+show"} {
+				if level == "page" && block == "set+show" {
+					continue
+				}
+				for _, tm := range []op{opsTm[0], opsTm[1], opsTm[3]} {
+					desc := harness.D("space", "noop", "param", params[pi].name, "level", level, "block", block, "tm", tm.code, "qintext", yn(level == "text"))
+					if !e.Own(desc) {
+						continue
+					}
+					e.Begin(desc)
+					with, base := build(&params[pi].chg, level, block, tm), build(nil, level, block, tm)
+					var fw, fb []text.TextFragment
+					var ew, eb error
+					sig, det := harness.Guard(func() { fw, ew = runText(with); fb, eb = runText(base) })
+					files := map[string][]byte{"with-block.txt": streamBytes(with.ops), "without-block.txt": streamBytes(base.ops)}
+					if sig != "" {
+						e.Fail(desc, sig, det, files)
+						continue
+					}
+					if ew != nil || eb != nil {
+						e.Fail(desc, "error-on-valid-program", fmt.Sprint(ew, eb), files)
+						continue
+					}
+					var kept []text.TextFragment
+					for _, f := range fw {
+						if f.Text != "x y" {
+							kept = append(kept, f)
+						}
+					}
+					bad := ""
+					if len(kept) != len(fb) || len(fb) != 6 {
+						bad = fmt.Sprintf("fragment count: %d with the block (block's own show removed), %d without, expected 6", len(kept), len(fb))
+					} else {
+						for i := range fb {
+							a, b := kept[i], fb[i]
+							tol := 1e-6 + 1e-9*(math.Abs(b.X)+math.Abs(b.Y))
+							if a.Text != b.Text || !near(a.X, b.X, tol) || !near(a.Y, b.Y, tol) || !near(a.FontSize, b.FontSize, tol) || !near(a.Width, b.Width, tol) {
+								bad = fmt.Sprintf("fragment #%d: with block %q (%.9g, %.9g) size %.9g width %.9g; without %q (%.9g, %.9g) size %.9g width %.9g",
+									i, a.Text, a.X, a.Y, a.FontSize, a.Width, b.Text, b.X, b.Y, b.FontSize, b.Width)
+								break
+							}
+						}
+					}
+					if bad != "" {
+						e.Fail(desc, "q-Q-block-not-a-noop", bad+"\nwith block: "+strings.ReplaceAll(strings.TrimSpace(string(streamBytes(with.ops))), "\n", " "), files)
+						continue
+					}
+					e.Pass(desc, true, "noop:"+params[pi].name)
+				}
+			}
+		}
+	}
 }
 
 func usesDo(ops []op) bool {
@@ -314,16 +493,20 @@ func setup() {
 }
 
 // complete turns an operator sequence into a whole program: font prologue, closing show, ET, Qs.
-func complete(seq []op, inText bool, depth int) *program {
-	p := &program{shareFonts: true}
-	p.ops = make([]op, 0, len(seq)+4+depth)
+func complete(seq []op, st pos) *program {
+	p := &program{shareFonts: true, textQ: true}
+	p.ops = make([]op, 0, len(seq)+4+st.depth)
 	p.ops = append(p.ops, opsTf[0])
 	p.ops = append(p.ops, seq...)
-	if !inText {
+	if !st.inText {
 		p.ops = append(p.ops, opBT)
 	}
-	p.ops = append(p.ops, opTj, opET)
-	for i := 0; i < depth; i++ {
+	p.ops = append(p.ops, opTj)
+	for i := 0; i < st.tdepth; i++ {
+		p.ops = append(p.ops, opQ) // q opened inside this text object
+	}
+	p.ops = append(p.ops, opET)
+	for i := 0; i < st.depth-st.tdepth; i++ {
 		p.ops = append(p.ops, opQ)
 	}
 	// every Do gets its own (identical) copy of the form: tabula drops a fragment that repeats the text
@@ -342,6 +525,68 @@ func complete(seq []op, inText bool, depth int) *program {
 	return p
 }
 
+// pos is the state of the program grammar: inside a text object or not, number of open q, and how many
+// of them were opened inside the current text object (those must be closed before ET).
+type pos struct {
+	inText        bool
+	depth, tdepth int
+}
+
+var textAlpha [2][]op
+
+// nextOps lists the operators that may follow in state st. Page level: ISO 32000-1 Figure 9. Inside a
+// text object additionally q and a Q matching a q of the same text object (tabula extension, qintext=y).
+func nextOps(st pos) []op {
+	if !st.inText {
+		return pageAlphabet(st.depth)
+	}
+	if textAlpha[0] == nil {
+		textAlpha[0] = append(append([]op{}, textAlphabet...), opq)
+		textAlpha[1] = append(append([]op{}, textAlphabet[1:]...), opq, opQ) // no ET while a q of this text object is open
+	}
+	if st.tdepth > 0 {
+		return textAlpha[1]
+	}
+	return textAlpha[0]
+}
+
+func advance(o *op, st pos) pos {
+	switch o.k {
+	case "BT":
+		st.inText, st.tdepth = true, 0
+	case "ET":
+		st.inText = false
+	case "q":
+		st.depth++
+		if st.inText {
+			st.tdepth++
+		}
+	case "Q":
+		st.depth--
+		if st.inText {
+			st.tdepth--
+		}
+	}
+	return st
+}
+
+func qInText(seq []op) bool {
+	in := false
+	for i := range seq {
+		switch seq[i].k {
+		case "BT":
+			in = true
+		case "ET":
+			in = false
+		case "q":
+			if in {
+				return true
+			}
+		}
+	}
+	return false
+}
+
 func step(o *op, inText bool, depth int) (bool, int) {
 	switch o.k {
 	case "BT":
@@ -358,8 +603,8 @@ func step(o *op, inText bool, depth int) (bool, int) {
 
 // seqDesc is harness.D("space","seq","group",…,"prog",…,"tmrot",…) without the per-value cleaning
 // (operator codes contain no white space).
-func seqDesc(prefix, seq []op, rot string) string {
-	return "space=seq group=" + codes(prefix) + " prog=" + codes(seq) + " tmrot=" + rot
+func seqDesc(prefix, seq []op, rot, qit string) string {
+	return "space=seq group=" + codes(prefix) + " prog=" + codes(seq) + " tmrot=" + rot + " qintext=" + qit
 }
 
 func seqSpace(e *harness.Env) {
@@ -371,14 +616,15 @@ func seqSpace(e *harness.Env) {
 	var programs, failing, groups int64
 	var maxDepth int64
 
-	type cls struct{ sig, rot string }
-	var walkGroup func(prefix []op, seq []op, inText bool, depth int, room int, seen map[cls]bool)
-	evalOne := func(prefix, seq []op, inText bool, depth int, seen map[cls]bool) {
-		p := complete(seq, inText, depth)
+	type cls struct{ sig, rot, qit string }
+	var walkGroup func(prefix []op, seq []op, st pos, room int, seen map[cls]bool)
+	evalOne := func(prefix, seq []op, st pos, seen map[cls]bool) {
+		p := complete(seq, st)
 		rot := yn(p.hasRotatedTm())
+		qit := yn(qInText(seq))
 		var desc string
 		if e.Replaying() {
-			desc = seqDesc(prefix, seq, rot)
+			desc = seqDesc(prefix, seq, rot, qit)
 			if !e.Own(desc) {
 				return
 			}
@@ -390,41 +636,35 @@ func seqSpace(e *harness.Env) {
 		}
 		if v.sig == "" {
 			if desc == "" {
-				desc = seqDesc(prefix, seq, rot)
+				desc = seqDesc(prefix, seq, rot, qit)
 			}
 			e.Pass(desc, v.nontrivial, v.outcome)
 			return
 		}
 		failing++
-		k := cls{v.sig, rot}
+		k := cls{v.sig, rot, qit}
 		if seen[k] {
 			return
 		}
 		seen[k] = true
 		if desc == "" {
-			desc = seqDesc(prefix, seq, rot)
+			desc = seqDesc(prefix, seq, rot, qit)
 		}
 		det, files := v.explain()
 		e.Fail(desc, v.sig, det, files)
 	}
-	walkGroup = func(prefix, seq []op, inText bool, depth int, room int, seen map[cls]bool) {
-		evalOne(prefix, seq, inText, depth, seen)
+	walkGroup = func(prefix, seq []op, st pos, room int, seen map[cls]bool) {
+		evalOne(prefix, seq, st, seen)
 		if room == 0 {
 			return
 		}
-		var alpha []op
-		if inText {
-			alpha = textAlphabet
-		} else {
-			alpha = pageAlphabet(depth)
-		}
+		alpha := nextOps(st)
 		for i := range alpha {
-			it, d := step(&alpha[i], inText, depth)
-			walkGroup(prefix, append(seq[:len(seq):len(seq)], alpha[i]), it, d, room-1, seen)
+			walkGroup(prefix, append(seq[:len(seq):len(seq)], alpha[i]), advance(&alpha[i], st), room-1, seen)
 		}
 	}
-	var walk func(prefix []op, inText bool, depth int)
-	walk = func(prefix []op, inText bool, depth int) {
+	var walk func(prefix []op, st pos)
+	walk = func(prefix []op, st pos) {
 		gdesc := harness.D("space", "seq", "group", codes(prefix))
 		room := 0
 		if len(prefix) == G {
@@ -433,24 +673,18 @@ func seqSpace(e *harness.Env) {
 		if e.Replaying() || e.Own(gdesc) {
 			groups++
 			e.Begin(gdesc)
-			walkGroup(prefix, prefix, inText, depth, room, map[cls]bool{})
+			walkGroup(prefix, prefix, st, room, map[cls]bool{})
 			e.End()
 		}
 		if len(prefix) == G {
 			return
 		}
-		var alpha []op
-		if inText {
-			alpha = textAlphabet
-		} else {
-			alpha = pageAlphabet(depth)
-		}
+		alpha := nextOps(st)
 		for i := range alpha {
-			it, d := step(&alpha[i], inText, depth)
-			walk(append(prefix[:len(prefix):len(prefix)], alpha[i]), it, d)
+			walk(append(prefix[:len(prefix):len(prefix)], alpha[i]), advance(&alpha[i], st))
 		}
 	}
-	walk(nil, false, 0)
+	walk(nil, pos{})
 	if !e.Replaying() {
 		e.Add("seq_programs", programs)
 		e.Add("programs_failing", failing)
